@@ -16,7 +16,8 @@ def S(s):
 
 THEOREMS = ['C04_B_expand_exact', 'C04_B_tree_tidy', 'C04_collapse_is_expand', 'C04_collapse_total',
             'C04_collapse_explicit', 'C04_collapse_none_refuted', 'C04_A_sound', 'C04_A_sound_root', 'C04_A_added_ok',
-            'C04_A_sound_sentence', 'C04_A_complete_partial', 'C04_example']
+            'C04_A_sound_sentence', 'C04_A_complete_partial', 'C04_A_alg_erasure', 'C04_A_alg_families_sound',
+            'C04_A_alg_families_complete', 'C04_A_exact', 'C04_A_complete', 'C04_A_exact_gen', 'C04_A_example', 'C04_example']
 GEN_DEPS = []
 RULE = ('random ambiguous grammars (<=4 non-terminals, <=3 alternatives of length <=3, ?rules, _inlined rules, aliases, '
         '[optional] with placeholders, !keep-all rules, filtered anonymous tokens, EBNF * and +), three lexers (basic, '
@@ -28,7 +29,9 @@ RULE = ('random ambiguous grammars (<=4 non-terminals, <=3 alternatives of lengt
         'cyclic stream: termination + every tree is the shape of a derivation; ignore stream: grammars with one or several '
         '(also overlapping) %ignore terminals, half of them ambiguous at the root between differently shaped start '
         'alternatives (aliases, _rules, ?rules, filtered/kept tokens), inputs with leading/inner/trailing ignored text, '
-        'oracle at character level with ignored text allowed before every token and after the last one. '
+        'oracle at character level with ignored text allowed before every token and after the last one; '
+        'alg-families stream: every SymbolNode.add_family call of a parse (basic lexer) logged and compared as a set, '
+        'with the outcome, with the instrumented executable model evaluated in Coq. '
         'non-trivial = distinct (grammar, lexer, input) whose explicit tree contains at least one _ambig')
 TRUSTED_BASE = ['hand model Forest/ExplicitToTree.v of ForestToParseTree(resolve_ambiguity=False) and the rule callback chain, '
                 'tied by structural comparison on forests captured inside Lark.parse',
@@ -1280,12 +1283,13 @@ def correspond(ctx):
     cases, meta, defs = [], [], []
     k = 3 if ctx.widen else 1
     acases = ([], [], [])
-    run_stream(ctx, 'acyclic', ctx.scale(110, 1500) * k, False, 4, cases, meta, defs, acases)
-    run_stream(ctx, 'cyclic', ctx.scale(30, 300) * k, True, 3, cases, meta, defs, acases)
+    run_stream(ctx, 'acyclic', ctx.scale(80, 1500) * k, False, 4, cases, meta, defs, acases)
+    run_stream(ctx, 'cyclic', ctx.scale(25, 300) * k, True, 3, cases, meta, defs, acases)
     # %ignore: layer B and the derivation oracle only (the span bookkeeping of layer A has no notion of ignored text)
-    run_stream(ctx, 'ignore', ctx.scale(45, 600) * k, False, 3, cases, meta, defs, None, ignore=True)
+    run_stream(ctx, 'ignore', ctx.scale(40, 600) * k, False, 3, cases, meta, defs, None, ignore=True)
     exotic_f6(ctx, cases, meta, defs)
     check_layer_a(ctx, acases)
+    run_alg_families(ctx, ctx.scale(30, 400) * k)
     ctx.extra['layer_A_forests_checked'] = len(acases[0])
     # Coq: the model on the captured forests
     bad, errs = ctx.coq_bad_indices('c04', IMPORTS, 'check_case', cases, chunk=150,
@@ -1317,6 +1321,58 @@ def check_layer_a(ctx, acases):
                       False, 'a packed family of the captured forest is not of the form (rule, intermediate node of the same '
                              'rule and start, child matching the next symbol over adjacent spans); the derivation oracle '
                              'holds on this case')
+
+
+def run_alg_families(ctx, ngrammars):
+    """stream alg-families: the log of every SymbolNode.add_family call of a real parse (basic lexer, acyclic and
+    cyclic grammars, accepted and rejected inputs) against the log of the instrumented model, as sets, plus the outcome"""
+    from lark.exceptions import GrammarError
+    rng = ctx.rng
+    terms, imeta = [], []
+    made = attempts = 0
+    while made < ngrammars and attempts < ngrammars * 30:
+        attempts += 1
+        cyc = rng.random() < 0.25
+        opts = {'maybe_placeholders': True, 'keep_all_tokens': False}
+        g = gen_grammar(rng, 'basic', cyc)
+        try:
+            parser = with_timeout(lambda: make_parser(g, 'basic', **opts))
+        except (GrammarError, Hang):
+            continue
+        made += 1
+        for text in list(all_inputs('ab', 3)) + ['a' * 4, 'a' * 5, 'abab', 'aabb']:
+            try:
+                r = parse_logged(parser, text)
+            except Hang:
+                continue            # hangs are judged by the other streams
+            if r is None:
+                continue
+            code, log = r
+            term = coq_icase(parser, text, code, log)
+            if term is None or len(term) > 60000:
+                continue
+            ctx.count('alg-families', key=(g, text), nontrivial=len(log) >= 4 and code == 0,
+                      alg_outcome=('accept' if code == 0 else 'eof' if code == 1 else 'token'),
+                      add_family_calls=min(60, 10 * (len(log) // 10)))
+            terms.append(term)
+            imeta.append((g, text, opts, parser))
+    bad, errs = ctx.coq_bad_indices('c04i', IMPORTS_I, 'icheck', terms, chunk=200)
+    for e in errs:
+        ctx.violation('correspondence:coq-eval-alg', {'no_longer_checks': 'Coq evaluation of icheck', 'error': e}, False, e[:300])
+    for i in bad:
+        g, text, opts, parser = imeta[i]
+        # is this a failing input of the property itself?
+        cyclic = has_derivation_cycle(parser.rules)
+        obs = run_case(g, 'basic', text, parser=make_parser(g, 'basic', **opts))
+        verdict = property_verdict(parser, 'basic', text, obs, cyclic)
+        if verdict:
+            ctx.violation('property-oracle:%s' % verdict[0], witness(g, 'basic', text, opts), True, verdict[1])
+        else:
+            ctx.violation('correspondence:Forest/ExplicitAlgBuild.iearley_parse vs earley.py add_family log',
+                          dict(witness(g, 'basic', text, opts), no_longer_checks='add_family calls / outcome of the parse = those of the instrumented model'),
+                          False, 'the set of add_family calls (or the outcome) of lark differs from the instrumented model; '
+                                 'the derivation oracle holds on this case')
+    ctx.extra['alg_families_cases'] = len(terms)
 
 
 def collapse_verdict(tree):
@@ -1365,3 +1421,102 @@ def replay(ctx, case):
     cyclic = has_derivation_cycle(parser.rules)
     obs = run_case(w['grammar'], w['lexer'], w['text'], parser=parser)
     return property_verdict(parser, w['lexer'], w['text'], obs, cyclic, mp=opts.get('maybe_placeholders', True)) is not None
+
+
+# ----------------------------------------------------------------------------------------------
+# round 3: the add_family log of lark's parser against the instrumented model Forest/ExplicitAlgBuild
+# ----------------------------------------------------------------------------------------------
+IMPORTS_I = 'From LV Require Import Cfg.Grammar Earley.Spec Earley.Alg Forest.ExplicitBuild Forest.ExplicitAlgBuild.'
+
+
+def parse_logged(parser, text):
+    """runs parser.parse(text) (basic lexer) with SymbolNode.add_family and Parser.predict_and_complete wrapped.
+    returns (outcome code, log) with log = [(label, rule, left, right)] for every add_family call, labels as in
+    graph_families; None when the lexer itself rejects the text."""
+    from lark.parsers import earley_forest, earley
+    from lark.exceptions import UnexpectedCharacters, UnexpectedEOF, UnexpectedToken
+    log = []
+    calls = [0]
+    orig_add = earley_forest.SymbolNode.add_family
+    orig_pc = earley.Parser.predict_and_complete
+
+    def label(n):
+        if n.is_intermediate:
+            return ('I', n.s[0], n.s[1], n.start, n.end)
+        return ('S', str(n.s.name), n.start, n.end)
+
+    def add_family(self, lr0, rule, start, left, right):
+        lf = label(left) if left is not None else None
+        if right is None:
+            rt = None
+        elif isinstance(right, earley_forest.TokenNode):
+            rt = ('T', str(right.token.type), str(right.token.type), self.end - 1, self.end)
+        else:
+            rt = label(right)
+        log.append((label(self), rule, lf, rt))
+        return orig_add(self, lr0, rule, start, left, right)
+
+    def pc(self, i, *a, **kw):
+        calls[0] += 1
+        return orig_pc(self, i, *a, **kw)
+    earley_forest.SymbolNode.add_family = add_family
+    earley.Parser.predict_and_complete = pc
+    try:
+        try:
+            with_timeout(lambda: parser.parse(text))
+            code = 0
+        except UnexpectedCharacters:
+            return None
+        except UnexpectedEOF:
+            code = 1
+        except UnexpectedToken:
+            code = 2 + calls[0] - 1
+    finally:
+        earley_forest.SymbolNode.add_family = orig_add
+        earley.Parser.predict_and_complete = orig_pc
+    return code, log
+
+
+def coq_icase(parser, text, code, log):
+    """Coq term of one icase; None when the basic lexer cannot tokenise the whole text (the model has no lexer)"""
+    from lark.exceptions import UnexpectedInput
+    try:
+        lexed = basic_tokens(parser, text)
+    except UnexpectedInput:
+        return None
+    nts, tms = {}, {}
+
+    def nt(name):
+        return nts.setdefault(str(name), len(nts))
+
+    def tm(name):
+        return tms.setdefault(str(name), len(tms))
+
+    def sym(s):
+        return '(T %d)' % tm(s.name) if s.is_term else '(NT %d)' % nt(s.name)
+    nt('start')
+    rule_term = {}
+    rules = []
+    for r in parser.rules:
+        rule_term[r] = '(mkRule %d %s)' % (nt(r.origin.name), L([sym(x) for x in r.expansion]))
+        rules.append('(%d, %s)' % (nt(r.origin.name), L([sym(x) for x in r.expansion])))
+
+    def label(lb):
+        if lb[0] == 'I':
+            return '(NInter nat %s %d %d %d)' % (rule_term[lb[1]], lb[2], lb[3], lb[4])
+        if lb[0] == 'S':
+            return '(NSym nat %d %d %d)' % (nt(lb[1]), lb[2], lb[3])
+        return '(NTok nat %d %d %d %d)' % (tm(lb[1]), tm(lb[2]), lb[3], lb[4])
+
+    def opt(lb):
+        return 'None' if lb is None else '(Some %s)' % label(lb)
+    seen = set()
+    fams = []
+    for lb, r, l, rt in log:
+        k = (lb, r, l, rt)
+        if k in seen:
+            continue
+        seen.add(k)
+        fams.append('(%s, (%s, %s, %s))' % (label(lb), rule_term[r], opt(l), opt(rt)))
+    toks = [tm(t[0]) for t in lexed]
+    return '(%s, %d, %s, %d, %s)' % (L(rules), nt('start'), L(['%d' % t for t in toks]), code, L(fams))
